@@ -259,6 +259,8 @@ def cache_coherence(chk: Check, rule: str = "R17.5") -> None:
 
 
 def rules(chk: Check) -> None:
+    # structural typestate rule first: it stays decidable when a map can no longer be extracted as a closed-form term
+    chk.stage(cache_coherence, chk, "R17.5")
     S = chk.src
     ex = Extractor(S, positive=POS)
     maps = {}
@@ -432,7 +434,6 @@ def rules(chk: Check) -> None:
     chk.ob("R17.4", "src/WallGo/config.py", "default smoothing values lie in (0, 1/2), where monotonicity is proved",
            len(sm_defaults) == 2 and all(0 < v < 0.5 for _, v in sm_defaults), str(sm_defaults), key="smoothing-defaults")
 
-    cache_coherence(chk, "R17.5")
 
     # ---------------- R17.6 -------------------------------------------------
     for g, ctor_cls in (("grid:Grid", "grid:Grid"), ("grid3Scales:Grid3Scales", "grid3Scales:Grid3Scales")):
